@@ -53,7 +53,7 @@ ALL_PROPS = ["C03_MutatorFrame", "C06_BookkeepingOnly", "C08_PhaseProtocol"]
 
 def heap_constants(n_obj=2, kinds=("N",), budgets=(1, 2), grans=("P1", "P2"), max_ops=0, emit="none",
                    vias=("mutate_root",), max_kids=2, max_weak=1, barrier_only=False, finalize=True, drop=True,
-                   many=False, fault_ats=(), max_handles=0, weak=True, unlink=True):
+                   many=False, fault_ats=(), max_handles=0, weak=True, unlink=True, debt_calls=True, leak=False):
     objs = ", ".join(f"o{i + 1}" for i in range(n_obj))
     return {
         "Obj": "{" + objs + "}", "NoObj": "NoObj", "MaxKids": max_kids, "MaxWeak": max_weak,
@@ -63,14 +63,18 @@ def heap_constants(n_obj=2, kinds=("N",), budgets=(1, 2), grans=("P1", "P2"), ma
         "WithDrop": "TRUE" if drop else "FALSE", "WithMany": "TRUE" if many else "FALSE",
         "FaultAts": tla_set(fault_ats, quote=False), "MaxHandles": max_handles,
         "WithWeak": "TRUE" if weak else "FALSE", "WithUnlink": "TRUE" if unlink else "FALSE",
+        "WithDebtCalls": "TRUE" if debt_calls else "FALSE", "WithLeak": "TRUE" if leak else "FALSE",
     }
 
 
 def heap_cfg(constants, emit):
+    if emit == "walks":
+        # random walks (tlc -simulate): no state constraint (it would make TLC re-draw the last step)
+        return cfg_text(spec="SpecEmit", constants=constants, invariants=ALL_INVS + ["EmitStates"], view="vw")
     return cfg_text(spec="SpecEmit", constants=constants, invariants=ALL_INVS + (["EmitStates"] if emit == "states" else []),
                     properties=ALL_PROPS, constraints=["Bounded"],
                     action_constraints=(["EmitClasses"] if emit in ("classes", "pairs") else []),
-                    symmetry="Perms", view="vw")
+                    symmetry="Perms", view="vwp" if emit == "pairs" else "vw")
 
 
 def model_error(r):
@@ -95,8 +99,9 @@ def core_models(tier, d):
     workers = 7
     quick = tier == "quick"
 
-    def run(name, module, cfg, per_class, limit, timeout):
-        r = run_tlc(module, cfg, name, d, workers=workers, timeout=timeout, xmx="10g")
+    def run(name, module, cfg, per_class, limit, timeout, sim=None):
+        r = run_tlc(module, cfg, name, d, workers=workers, timeout=timeout, xmx="10g", simulate=sim[0] if sim else None,
+                    depth=sim[1] if sim else None)
         model_error(r)
         f = os.path.join(d, f"beh_{name}.ndjson")
         n, ncls = extract_behaviours(r["out"], f, per_class=per_class, limit=limit)
@@ -124,8 +129,16 @@ def core_models(tier, d):
         #     Witnesses per PAIR of transition classes, so that what follows a stash is replayed too.
         ("n3_dyn", "MC_GcHeap", hc("pairs", n_obj=3, max_handles=2, finalize=False, budgets=(1,), grans=("P1",),
                                    weak=False, unlink=False, max_ops=6 if quick else 8), 1, None, 3000),
+        # (4a) dynamic roots, PATH diversity: the implementation's slot table has history the model's state does not
+        #      (a recycled slot), so covering states or classes is not enough; seeded random walks (tlc -simulate)
+        ("n2_dynwalk", "MC_GcHeap", hc("walks", n_obj=2, max_handles=2, finalize=False, budgets=(1,), grans=("P1",), weak=False,
+                                       unlink=False, debt_calls=False, drop=False, max_ops=12), None, 12000 if quick else 120000, 3000,
+         ("num=600" if quick else "num=6000", 13)),
         # (4b) consequences: one witness per (class of transition, operation that follows it)
         ("n2_pairs", "MC_GcHeap", hc("pairs", n_obj=2, many=True, max_ops=6 if quick else 8), 1, None, 3000),
+        # (4c) a RefLock frozen by a leaked RefMut (safe code): tracing it must panic, never skip it
+        ("n2_leak", "MC_GcHeap", hc("pairs", n_obj=2, leak=True, finalize=False, drop=False, debt_calls=False, budgets=(1,),
+                                    grans=("P1",), max_ops=5 if quick else 7), 1, None, 3000),
         # (5) two arenas on one thread (C20): interleavings of a reduced menu
         ("two_arenas", "TwoArenas", two_arenas_cfg(4 if quick else 5), None, 12000 if quick else 200000, 3000),
     ]
@@ -136,8 +149,11 @@ def core_models(tier, d):
         jobs.append(("n3_k6", "MC_GcHeap", hc("classes", n_obj=3, max_ops=6, many=True), 3, None, 3600))
     par = 2
     from concurrent.futures import ThreadPoolExecutor
+    # longest first, so that the two lanes finish together
+    first = ["n2_pairs", "n3_dyn", "n3_k6", "n2_states", "n2_classes"]
+    sched = sorted(jobs, key=lambda j: first.index(j[0]) if j[0] in first else len(first))
     with ThreadPoolExecutor(max_workers=par) as ex:
-        list(ex.map(lambda j: run(*j), jobs))
+        list(ex.map(lambda j: run(*j), sched))
     order = {j[0]: i for i, j in enumerate(jobs)}
     tlc_runs.sort(key=lambda r: order[r["name"]])
     beh_files.sort(key=lambda b: order[b[0]])
@@ -145,6 +161,7 @@ def core_models(tier, d):
 
 
 MODEL_FILES = ["GcHeap.tla", "MC_GcHeap.tla", "MC_Pacing.tla", "TwoArenas.tla"]
+TRACE_FILES = ["GcMonitor.tla", "GcMonitorTrace.tla", "GcArenaTrace.tla"]
 
 
 def spec_key(extra=""):
@@ -157,7 +174,7 @@ def spec_key(extra=""):
 def core_key(extra=""):
     """Key of the implementation-facing runs: /repo's sources, the harness, the specifications."""
     paths = [os.path.join(gcv.REPO, p) for p in ("src", "derive/src", "derive/Cargo.toml", "Cargo.toml", "Cargo.lock")]
-    paths += [os.path.join(SPEC, f) for f in MODEL_FILES + ["GcMonitor.tla", "GcMonitorTrace.tla"]]
+    paths += [os.path.join(SPEC, f) for f in MODEL_FILES + TRACE_FILES]
     paths += [os.path.join(gcv.HARN, "src"), os.path.join(gcv.HARN, "Cargo.toml"), os.path.join(ROOT, "known_findings.json")]
     paths += [os.path.join(ROOT, "runner", f) for f in ("gcv.py", "engines.py")]
     return gcv._hash_paths(paths)[:20] + extra
@@ -444,6 +461,40 @@ def random_runs(binary, d, name, shards, runs_per_shard, steps, sd):
     return m
 
 
+GAT_CFG = ("SPECIFICATION TSpec\nCONSTANTS\n  Obj <- TraceIds\n  NoObj = 0\n  MaxKids = 4\n  MaxWeak = 3\n  Kinds = {\"N\", \"S\"}\n"
+           "  Budgets = {1}\n  Grans = {\"P1\"}\n  MaxHandles = 0\nPOSTCONDITION Accepted\nCHECK_DEADLOCK FALSE\n")
+
+
+def strict_validation(binary, d, tier, sd):
+    """Implementation -> CONCRETE specification (GcArenaTrace.tla): random-driver executions are replayed in
+    GcHeap.tla with the operators TLC model-checks; every logged internal snapshot must equal the model's state."""
+    import re
+    n, runs, steps = (2, 1, 50) if tier == "quick" else (12, 2, 120)
+
+    def one(k):
+        tr = os.path.join(d, f"strict.{k}.ndjson")
+        p = gcv.run_harness(binary, ["random", "--seed", str(sd + 7000 + k), "--runs", str(runs), "--steps", str(steps), "--max-objs", "24",
+                                     "--trace", tr, "--report", tr + ".rep"])
+        if p.returncode != 0:
+            return {"crash": True}
+        r = run_tlc("GcArenaTrace", GAT_CFG, f"strict.{k}", d, workers=1, timeout=2400, env={"TRACE": tr}, deque=True, xmx="6g")
+        txt = open(r["out"], errors="replace").read()
+        m = re.search(r'^<<"VERDICT", (".*")>>$', txt, re.M)
+        os.remove(tr)
+        if not m or r["error"]:
+            return {"error": r["error"] or "no verdict", "wall_s": r["wall_s"]}
+        v = json.loads(json.loads(m.group(1)))
+        v["wall_s"] = r["wall_s"]
+        return v
+
+    from concurrent.futures import ThreadPoolExecutor
+    with ThreadPoolExecutor(max_workers=min(n, 6)) as ex:
+        parts = list(ex.map(one, range(n)))
+    return {"traces": n, "events": sum(p.get("events", 0) for p in parts), "snapshots_compared": sum(p.get("snapshots", 0) for p in parts),
+            "objects": sum(p.get("objects", 0) for p in parts), "drift": [p["drift"] for p in parts if p.get("drift")],
+            "errors": [p for p in parts if p.get("error") or p.get("crash")], "wall_s": max([p.get("wall_s", 0) for p in parts] + [0])}
+
+
 def pacing_engine(tier, d):
     t0 = time.time()
     models, md = memo("pmodel-" + tier, spec_key(f"-{seed()}"), lambda dd: pacing_models(tier, dd))
@@ -484,7 +535,8 @@ def pacing_engine(tier, d):
         shards, per, steps = (8, 40, 150) if tier == "quick" else (16, 600, 250)
         rr = random_runs(binary, d, f"random.{profile}", shards, per, steps, seed())
         replays[f"random:{profile}"] = rr
-    return {"tier": tier, "tlc": models["tlc"], "replays": replays, "beh_files": bf, "samples": samples,
+    strict = strict_validation(build_harness("debug"), d, tier, seed())
+    return {"tier": tier, "tlc": models["tlc"], "replays": replays, "beh_files": bf, "samples": samples, "strict": strict,
             "wall_s": round(time.time() - t0, 1)}
 
 
@@ -537,6 +589,7 @@ def check_pacing(prop, tier):
         "behaviours_replayed_with_exact_debt_comparison": debt_checked,
         "behaviours_whose_debt_differs_from_the_model": debt_drift,
         "random_driver_runs": sum(r["runs"] for k, r in res["replays"].items() if k.startswith("random")),
+        "impl_to_concrete_spec_validation": res.get("strict"),
         "trace_events_judged": m["events"],
         "monitor_rule_hits": {k: v for k, v in sorted(m["hits"].items()) if k.startswith(prop)},
         "known_findings_seen": sorted({v["rule"] for v in viols if match_finding(prop, v, known_findings())}),
